@@ -22,6 +22,7 @@ const (
 	evWrite
 	evLock
 	evUnlock
+	evTryFail // a TryLock that found the mutex held
 )
 
 type cellKey struct {
@@ -152,6 +153,30 @@ func (tc *threadCtx) lockEvent(ex *Exec, p *PtrVal, lock bool) {
 	}
 }
 
+// tryLockEvent models (*sync.Mutex).TryLock in thread mode: both outcomes are
+// explored; success is an ordinary acquisition, failure is an event that the
+// schedule must place inside another thread's critical section.
+func (tc *threadCtx) tryLockEvent(ex *Exec, p *PtrVal) *Term {
+	if !p.Off.IsConst() {
+		ex.unsupported("mutex at a symbolic address")
+	}
+	key := cellKey{p.Obj, int(p.Off.Val)}
+	if tc.cur < 0 {
+		return ex.tt.True
+	}
+	if tc.held[key] {
+		return ex.tt.False // the thread itself holds it
+	}
+	ok := ex.tt.Var(fmt.Sprintf("trylock!%d", len(tc.events)), 0)
+	if ex.branch(ok) {
+		tc.newEvent(ex, evLock, key, nil)
+		tc.held[key] = true
+		return ex.tt.True
+	}
+	tc.newEvent(ex, evTryFail, key, nil)
+	return ex.tt.False
+}
+
 func (ex *Exec) joinThreads() {
 	tc := ex.threads
 	if tc == nil {
@@ -252,6 +277,19 @@ func (ex *Exec) joinThreads() {
 			}
 			phi = append(phi, tt.Or(tt.Ult(a.u.clock, b.l.clock), tt.Ult(b.u.clock, a.l.clock)))
 		}
+	}
+	// a failed TryLock happens strictly inside another thread's critical section of that mutex
+	for _, e := range tc.events {
+		if e.kind != evTryFail {
+			continue
+		}
+		var inside []*Term
+		for _, sct := range sections {
+			if sct.thread != e.thread && sct.l.key == e.key {
+				inside = append(inside, tt.And(tt.Ult(sct.l.clock, e.clock), tt.Ult(e.clock, sct.u.clock)))
+			}
+		}
+		phi = append(phi, tt.Or(inside...))
 	}
 	// two writes / a write and a read of one cell never share a clock
 	for _, ws := range writes {
